@@ -42,6 +42,29 @@ def first_targ(t):
     return t[i + 1:j].strip()
 
 
+def const_handles(ck, F, prefix, only=None):
+    """Unifying factories hand out references to const; borrowed by C01 (types) and C11 (get_qualified)."""
+    R = ck.rule(f'{prefix}.unified-handles-const', 'a factory that may answer with a node it handed out before (a unifying factory) returns a '
+                'reference or pointer to const: every holder of that node sees it through a read-only handle, so no public path lets one '
+                'client rewrite what another client\'s reference observes (the two generative-looking `make_` functions that are documented '
+                'to unify are noted)', floor=1 if only else 30)
+    cur = wire.compute(F)
+    for fid, paths in sorted(cur.items()):
+        f = F.fn[fid]
+        if not any((p.get('origin') or '').startswith('unified') for p in paths):
+            continue
+        if only is not None and f['name'] not in only:
+            continue
+        sid = '::'.join(contracts.fn_qname(fid).split('::')[-2:]) + '(' + ', '.join(contracts.short(p['t']) for p in f['params']) + ')'
+        if f['name'] in UNIFYING_MAKES:
+            ck.note(f'{sid}: returns a mutable pointer; {UNIFYING_MAKES[f["name"]]}')
+            continue
+        r = (f.get('ret') or '').strip()
+        ck.check(R, sid, r.startswith('const ') and r.endswith(('&', '*')),
+                 f'{fid} returns `{r}`: a handle through which the shared node can be modified (its stored operands are public members of '
+                 'the implementation class)', loc=f['loc'], fn=fid)
+
+
 def run(ck, F):
     ck.explanation = (
         'Reference stability is a property of the container kind, independent of history: every member or base of the '
@@ -160,6 +183,9 @@ def run(ck, F):
         bad = [p.get('origin') for p in paths if 'accessors' in p and not (p.get('origin') or '').startswith('fresh')]
         bad += ['returns ' + p['result'][:60] for p in paths if 'result' in p]
         ck.check(R3, sid, not bad, f'{fid} does not allocate a fresh node on every path: {bad}', loc=f['loc'], fn=fid)
+
+    # a node that is shared by everyone who asks for the same thing is handed out read-only
+    const_handles(ck, F, 'C05')
 
     # a declaration entered into a scope that already holds declarations is as fresh as the first one
     R3b = ck.rule('C05.declaration-is-fresh', 'every path of a second Scope::make_* request (redeclaration, new type under a known name, new '
